@@ -1,6 +1,6 @@
 """C19 - failures are reported only as ValueError/TypeError; nothing crashes."""
 from ..rules import shape_rules as sr
-from ..rules.pyxres import px_rules
+from ..rules.pyxres import px8, px_rules
 from ..rules.quoter_pyx import CQuoter
 from ..rules.unquoters import Unquoter, read_bounds
 from ..shape import Shapes
@@ -25,6 +25,7 @@ def run(ctx):
     sr.ex_rules(ctx, shapes)
     sr.ex3_acyclic(ctx, shapes)
     px_rules(ctx)
+    px8(ctx)
     m = ctx.model
     for q in ("_quoting_c._Quoter._do_quote", "_quoting_c._Quoter._do_quote_or_skip", "_quoting_c._Unquoter._do_unquote"):
         from ..interp import analyze
